@@ -23,7 +23,8 @@ Events (text form, ` ; `-separated in corpus / replay files):
     ACT c fa     one task calling close(force_after=fa) twice in a row
     AB           task: abort()
   environment
-    L            link dropped / peer closed       PA / RE   send buffer full / drained
+    L            peer closed (connection_lost(None))     LE   link broke (connection_lost(exc))
+    PA / RE      send buffer full / drained
     A dt         dt seconds of virtual time pass
 """
 import asyncio
@@ -46,6 +47,7 @@ class StallTransport(FT.FakeTransport):
     (c) a callback just before connection_lost is delivered."""
     stalled = False
     on_lost = None
+    lost_exc = None      # what connection_lost is called with (None = clean close / EOF)
 
     def close(self):
         if self.stalled:
@@ -63,14 +65,20 @@ class StallTransport(FT.FakeTransport):
         self.aborted = True
         self._force()
 
-    def drop(self):
+    def drop(self, exc=None):
         self.log.append((self.loop.time(), 'link-drop'))
+        if not self.closing or self.lost_exc is None:
+            self.lost_exc = exc
         self._force()
 
     def _deliver_lost(self):
-        if not self.lost_delivered and self.on_lost:
-            self.on_lost()
-        super()._deliver_lost()
+        # as FakeTransport._deliver_lost, but asyncio passes the error for a broken link
+        if not self.lost_delivered:
+            if self.on_lost:
+                self.on_lost()
+            self.lost_delivered = True
+            self.log.append((self.loop.time(), 'connection_lost'))
+            self.proto.connection_lost(self.lost_exc)
 
     def feed(self, data):
         if not self.closing:
@@ -319,6 +327,8 @@ class World:
             self._task(s.abort(), rec)
         elif k == 'L':
             self.tr.drop()
+        elif k == 'LE':
+            self.tr.drop(ConnectionResetError(104, 'Connection reset by peer'))
         elif k == 'PA':
             self.tr.env_pause()
         elif k == 'RE':
